@@ -175,6 +175,8 @@ class Crate:
         self.consts = {c['path']: c for c in d['consts']}
         self.impls = d['impls']
         self.items = {i['path']: i for i in d['items']}
+        from . import lower
+        self.lowered = lower.lower_crate(self)
 
     def fn(self, path):
         return self.fns.get(path)
